@@ -635,12 +635,12 @@ def close(a, b, rel=1e-9):
     return abs(a - b) <= rel * max(abs(a), abs(b), 1e-300)
 
 
-def export_verdict(rendering, env, value):
+def export_verdict(rendering, env, value, rel=1e-9):
     """'same' / 'different' / 'undecided' : does the exported C++ formula have the evaluator's value?"""
     try:
         v = cxx_eval(rendering, env)
     except CxxError:
         return "undecided", None
-    if value is None:
+    if value is None or value != value or v != v:
         return "undecided", v
-    return ("same" if close(v, value, 1e-9) else "different"), v
+    return ("same" if close(v, value, rel) else "different"), v
